@@ -154,10 +154,13 @@ def r2(ctx: Ctx):
              node=cr.node)
   ia = c06._nested(cr, 'iterate_agg_state')
   txt = unparse(ia.node)
-  stop_ok = any(isinstance(x, ast.If) and 'is_stop_iteration(state)' in unparse(x.test)
+  from mlmverif import pat
+  got = pat.search(ia.node, '$s = states_queue.get()')
+  sv = got[0][1]['s'] if got else '<state>'
+  stop_ok = any(isinstance(x, ast.If) and pat.has(x.test, f'iter_utils.is_stop_iteration({sv})')
                 and any(isinstance(b, ast.Return) for b in x.body) for x in walk_no_nested(ia.node))
-  yield_ok = any(isinstance(x, ast.If) and 'AggregateResult' in unparse(x.test)
-                 and any(isinstance(y, ast.Yield) and unparse(y.value) == 'state.agg_state'
+  yield_ok = any(isinstance(x, ast.If) and 'AggregateResult' in unparse(x.test) and sv in unparse(x.test)
+                 and any(isinstance(y, ast.Yield) and unparse(y.value) == f'{sv}.agg_state'
                          for b in x.body for y in ast.walk(b)) for x in walk_no_nested(ia.node))
   gi = cfgm.cfg_of(ia.node)
   stopc = lambda c: c.kind == 'cond' and 'is_stop_iteration' in unparse(c.ast)
@@ -174,8 +177,16 @@ def r2(ctx: Ctx):
              f' yield: {yield_ok})', node=ia.node)
   st = c06._nested(repo.func(ORCH, '_async_run_single_stage'), 'iterate_with_worker_pool')
   g = cfgm.cfg_of(st.node)
-  clears = [n for n in g.nodes if 'result_q.returned.clear()' in (unparse(n.ast) if n.ast else '')]
-  apps = [n for n in g.nodes if n.kind == 'stmt' and 'result_q.returned.append(' in unparse(n.ast)]
+  outer = repo.func(ORCH, '_async_run_single_stage')
+  rq = None
+  for x in walk_no_nested(outer.node):
+    if isinstance(x, ast.Assign) and isinstance(x.targets[0], ast.Name) and isinstance(x.value, ast.Call) and (
+        unparse(x.value.func).endswith('AsyncIteratorQueue')):
+      rq = x.targets[0].id
+  if rq is None:
+    raise AnalysisError(f'{rule}: stage result queue not found')
+  clears = [n for n in g.nodes if f'{rq}.returned.clear()' in (unparse(n.ast) if n.ast else '')]
+  apps = [n for n in g.nodes if n.kind == 'stmt' and f'{rq}.returned.append(' in unparse(n.ast)]
   ok = (len(clears) == 1 and len(apps) == 1 and 'AggregateResult' in unparse(apps[0].ast)
         and g.dominates(lambda n: n in clears, apps[0], cfgm.only_normal) is None
         and apps[0] not in g.reachable([apps[0]], edge_ok=cfgm.only_normal))
@@ -186,11 +197,16 @@ def r2(ctx: Ctx):
              'the stage does not end with exactly one merged aggregate result'
              ' (partial per-worker results leak through or none is produced)',
              node=st.node)
-  ms = [x for x in walk_no_nested(st.node) if isinstance(x, ast.Call) and unparse(x.func) == 'agg_fn.merge_states']
-  coll = any(isinstance(l, ast.For) and unparse(l.iter) == 'result_q.returned' and any(
-      'agg_states.append(agg_result.agg_state)' in unparse(b) for b in ast.walk(l) if isinstance(b, ast.Expr))
-             for l in walk_no_nested(st.node))
-  if ms and unparse(ms[0].args[0]) == 'agg_states' and coll:
+  ms = [x for x in walk_no_nested(st.node) if isinstance(x, ast.Call) and isinstance(x.func, ast.Attribute)
+        and x.func.attr == 'merge_states']
+  coll = None
+  for l in walk_no_nested(st.node):
+    if isinstance(l, ast.For) and unparse(l.iter) == f'{rq}.returned' and isinstance(l.target, ast.Name):
+      for b in ast.walk(l):
+        m_ = pat.match(f'$lst.append({l.target.id}.agg_state)', b) if isinstance(b, ast.Call) else None
+        if m_:
+          coll = m_['lst']
+  if ms and coll and unparse(ms[0].args[0]) == coll:
     ctx.ok(rule, st, 'every worker\'s agg_state is merged', ms[0])
   else:
     ctx.fail(rule, st, 'iterate_with_worker_pool: merge all returned agg states',
